@@ -147,6 +147,8 @@ type Guards struct {
 	phiBusy map[*ssa.Phi]bool
 	busy    map[busyKey]bool
 	retMemo map[retKey]Itv
+	memo    map[busyKey]Itv
+	cutoffs int
 	// statistics
 	Unknown []string
 }
@@ -162,7 +164,7 @@ type retKey struct {
 }
 
 func newGuards(p *Program) *Guards {
-	g := &Guards{p: p, cg: p.CallGraphVTA(), intBits: 64, phiEst: map[*ssa.Phi]Itv{}, phiBusy: map[*ssa.Phi]bool{}, busy: map[busyKey]bool{}, retMemo: map[retKey]Itv{}}
+	g := &Guards{p: p, cg: p.CallGraphVTA(), intBits: 64, phiEst: map[*ssa.Phi]Itv{}, phiBusy: map[*ssa.Phi]bool{}, busy: map[busyKey]bool{}, retMemo: map[retKey]Itv{}, memo: map[busyKey]Itv{}}
 	if p.Arch == "386" {
 		g.intBits = 32
 		g.maxLen = new(big.Int).Sub(pow2(31), bi(1))
@@ -229,20 +231,29 @@ func (g *Guards) clampToType(a Itv, t types.Type) Itv {
 
 // At returns the interval of v as seen by an instruction in block b.
 func (g *Guards) At(v ssa.Value, b *ssa.BasicBlock) Itv {
+	k := busyKey{v, b}
+	if it, ok := g.memo[k]; ok {
+		return it
+	}
 	if g.depth > 60 {
+		g.cutoffs++
 		return g.typeRange(v.Type())
 	}
-	k := busyKey{v, b}
 	if g.busy[k] {
+		g.cutoffs++
 		return g.typeRange(v.Type())
 	}
 	g.busy[k] = true
 	g.depth++
+	before := g.cutoffs
 	defer func() { g.depth--; delete(g.busy, k) }()
 	it := g.def(v)
 	it = meet(it, g.typeRange(v.Type()))
 	if b != nil {
 		it = g.refine(v, it, b)
+	}
+	if g.cutoffs == before && len(g.phiBusy) == 0 {
+		g.memo[k] = it
 	}
 	return it
 }
@@ -436,6 +447,7 @@ func (g *Guards) binop(x *ssa.BinOp) Itv {
 
 func (g *Guards) phi(x *ssa.Phi) Itv {
 	if g.phiBusy[x] {
+		g.cutoffs++
 		if e, ok := g.phiEst[x]; ok {
 			return e
 		}
@@ -831,9 +843,19 @@ func (g *Guards) callResult(c *ssa.Call, idx int, tuple bool) Itv {
 		}
 		return tr
 	}
+	if c.Call.IsInvoke() && (c.Call.Method.Name() == "Write" || c.Call.Method.Name() == "Read") && idx == 0 {
+		return Itv{Lo: bi(0), Hi: g.maxLen} // io.Writer / io.Reader contract: 0 <= n <= len(p)
+	}
 	callee := c.Call.StaticCallee()
 	if callee == nil {
 		return tr
+	}
+	// trusted exact-arithmetic helper of the repository (datacodec/math.go): floorMod(x, y) with a
+	// positive constant y lies in [0, y-1]
+	if callee.Name() == "floorMod" && callee.Pkg != nil && shortPkg(callee.Pkg.Pkg) == "datacodec" && len(c.Call.Args) == 2 {
+		if y := g.At(c.Call.Args[1], c.Block()); !y.Bot && y.Lo != nil && y.Lo.Sign() > 0 && y.Hi != nil {
+			return Itv{Lo: bi(0), Hi: new(big.Int).Sub(y.Hi, bi(1))}
+		}
 	}
 	// documented standard-library post-conditions
 	switch callee.String() {
@@ -871,6 +893,15 @@ func (g *Guards) callResult(c *ssa.Call, idx int, tuple bool) Itv {
 		return Itv{Lo: lo, Hi: bi(n)}
 	case "(*bytes.Buffer).Len", "(*bytes.Reader).Len", "(*bytes.Buffer).Cap":
 		return Itv{Lo: bi(0), Hi: g.maxLen}
+	case "io.ReadFull", "io.ReadAtLeast", "(*bytes.Buffer).Write", "(*bytes.Reader).Read", "(*bytes.Buffer).Read":
+		if idx == 0 {
+			return Itv{Lo: bi(0), Hi: g.maxLen}
+		}
+		return tr
+	case "(*math/big.Int).BitLen":
+		return Itv{Lo: bi(0), Hi: new(big.Int).Mul(g.maxLen, bi(8))}
+	case "(*math/big.Int).Sign":
+		return Itv{Lo: bi(-1), Hi: bi(1)}
 	case "(reflect.Value).Len", "(reflect.Value).Cap", "(reflect.Value).NumField", "(reflect.Type).NumField":
 		return Itv{Lo: bi(0), Hi: g.maxLen}
 	}
@@ -989,8 +1020,8 @@ func (g *Guards) sameValue(a, b ssa.Value, blk *ssa.BasicBlock) bool {
 				return true
 			}
 		}
-		if x, ok := ua.X.(*ssa.Alloc); ok && ua.X == ub.X {
-			_ = x
+		if ua.X == ub.X && g.noStoreThrough(ua.Parent(), ua.X) {
+			return true
 		}
 	}
 	// repeated pure method calls on the same receiver
@@ -1047,22 +1078,137 @@ func (g *Guards) strip(v ssa.Value, blk *ssa.BasicBlock) ssa.Value {
 	return v
 }
 
+// refine intersects it with every constraint on v that holds on entry to block b. Because an
+// SSA value never changes, a constraint established on every path to b still holds in b; the
+// constraint is computed as the join over b's incoming edges of (constraint at the predecessor
+// ∩ condition of the edge), skipping edges whose condition is statically false. Back edges are
+// skipped: whatever they contribute already held when the loop was first entered.
 func (g *Guards) refine(v ssa.Value, it Itv, b *ssa.BasicBlock) Itv {
 	if it.Bot {
 		return it
 	}
-	// walk the dominator chain
-	for d := b; d != nil; d = d.Idom() {
-		idom := d.Idom()
-		if idom == nil {
-			break
+	// note: the walk does not stop at v's defining block: conditions on values that are the same
+	// as v (repeated loads of an unchanged location, repeated pure calls) may precede it
+	memo := map[*ssa.BasicBlock]Itv{}
+	busy := map[*ssa.BasicBlock]bool{}
+	var reach func(blk *ssa.BasicBlock, depth int) Itv
+	reach = func(blk *ssa.BasicBlock, depth int) Itv {
+		if len(blk.Preds) == 0 || depth > 400 {
+			return top
 		}
-		it = g.refineEdge(v, it, idom, d)
-		if it.Bot {
-			return it
+		if r, ok := memo[blk]; ok {
+			return r
+		}
+		if busy[blk] {
+			return bot // back edge
+		}
+		busy[blk] = true
+		res := bot
+		for _, p := range blk.Preds {
+			c := reach(p, depth+1)
+			if c.Bot {
+				continue
+			}
+			if g.edgeInfeasible(p, blk) {
+				continue
+			}
+			c = g.refineEdgeX(v, meet(c, it), p, blk, true)
+			res = join(res, c)
+		}
+		delete(busy, blk)
+		// res stays ⊥ when every incoming edge is infeasible (or a back edge of an unreachable
+		// loop): the block is dead and constrains nothing
+		memo[blk] = res
+		return res
+	}
+	return meet(it, reach(b, 0))
+}
+
+// edgeInfeasible: the branch condition guarding the edge from -> to is statically false.
+func (g *Guards) edgeInfeasible(from, to *ssa.BasicBlock) bool {
+	if len(from.Instrs) == 0 || len(from.Succs) != 2 || from.Succs[0] == from.Succs[1] {
+		return false
+	}
+	ifi, ok := from.Instrs[len(from.Instrs)-1].(*ssa.If)
+	if !ok {
+		return false
+	}
+	pol := from.Succs[0] == to
+	val, known := g.condKnown(ifi.Cond, from, 0)
+	return known && val != pol
+}
+
+func (g *Guards) condKnown(c ssa.Value, at *ssa.BasicBlock, depth int) (bool, bool) {
+	if depth > 3 {
+		return false, false
+	}
+	switch x := c.(type) {
+	case *ssa.Const:
+		if x.Value != nil && x.Value.Kind() == constant.Bool {
+			return constant.BoolVal(x.Value), true
+		}
+	case *ssa.UnOp:
+		if x.Op == token.NOT {
+			v, k := g.condKnown(x.X, at, depth+1)
+			return !v, k
+		}
+	case *ssa.BinOp:
+		if !isIntType(x.X.Type()) {
+			return false, false
+		}
+		if g.depth > 40 {
+			return false, false
+		}
+		a, b := g.At(x.X, at), g.At(x.Y, at)
+		if a.Bot || b.Bot || a.Lo == nil || a.Hi == nil || b.Lo == nil || b.Hi == nil {
+			return false, false
+		}
+		switch x.Op {
+		case token.EQL:
+			if a.Lo.Cmp(a.Hi) == 0 && b.Lo.Cmp(b.Hi) == 0 {
+				return a.Lo.Cmp(b.Lo) == 0, true
+			}
+			if a.Hi.Cmp(b.Lo) < 0 || b.Hi.Cmp(a.Lo) < 0 {
+				return false, true
+			}
+		case token.NEQ:
+			if a.Lo.Cmp(a.Hi) == 0 && b.Lo.Cmp(b.Hi) == 0 {
+				return a.Lo.Cmp(b.Lo) != 0, true
+			}
+			if a.Hi.Cmp(b.Lo) < 0 || b.Hi.Cmp(a.Lo) < 0 {
+				return true, true
+			}
+		case token.LSS:
+			if a.Hi.Cmp(b.Lo) < 0 {
+				return true, true
+			}
+			if a.Lo.Cmp(b.Hi) >= 0 {
+				return false, true
+			}
+		case token.LEQ:
+			if a.Hi.Cmp(b.Lo) <= 0 {
+				return true, true
+			}
+			if a.Lo.Cmp(b.Hi) > 0 {
+				return false, true
+			}
+		case token.GTR:
+			if a.Lo.Cmp(b.Hi) > 0 {
+				return true, true
+			}
+			if a.Hi.Cmp(b.Lo) <= 0 {
+				return false, true
+			}
+		case token.GEQ:
+			if a.Lo.Cmp(b.Hi) >= 0 {
+				return true, true
+			}
+			if a.Hi.Cmp(b.Lo) < 0 {
+				return false, true
+			}
 		}
 	}
-	return it
+	return false, false
 }
 
 // refineEdge applies the condition of the edge from -> to (when `from` ends in an If and `to` is
@@ -1219,4 +1365,26 @@ func trimNeq(it, o Itv) Itv {
 		return bot
 	}
 	return r
+}
+
+// noStoreThrough: the function never stores to an address of p's pointer type and never passes p
+// to a call, so two loads *p see the same value (type-based aliasing within one function).
+func (g *Guards) noStoreThrough(fn *ssa.Function, p ssa.Value) bool {
+	for _, b := range fn.Blocks {
+		for _, ins := range b.Instrs {
+			switch x := ins.(type) {
+			case *ssa.Store:
+				if types.Identical(x.Addr.Type(), p.Type()) {
+					return false
+				}
+			case ssa.CallInstruction:
+				for _, a := range x.Common().Args {
+					if a == p {
+						return false
+					}
+				}
+			}
+		}
+	}
+	return true
 }
